@@ -89,32 +89,7 @@ pub fn crc_step() {
     kani::cover!(s0 == 0xFFFFFF);
 }
 
-// ---- long frames with the CRC arithmetic stubbed ------------------------------------------------
-pub static mut DIG_PTR: *const u8 = core::ptr::null();
-pub static mut DIG_LEN: usize = 0;
-pub static mut DIG_CALLS: usize = 0;
-pub static mut CRC_VAL: u32 = 0;
-
-pub fn stub_digest<T: ?Sized + AsRef<[u8]>>(_this: &mut crc_any::CRCu32, data: &T) {
-    unsafe {
-        DIG_CALLS += 1;
-        DIG_PTR = data.as_ref().as_ptr();
-        DIG_LEN = data.as_ref().len();
-    }
-}
-pub fn stub_get_crc(_this: &crc_any::CRCu32) -> u32 {
-    unsafe { CRC_VAL }
-}
-
-/// True when the `-Z stubbing` stubs are in effect (symbolic run); false in a native replay, where
-/// Kani's playback does not apply stubs and the real CRC runs.
-pub fn crc_is_stubbed() -> bool {
-    unsafe {
-        CRC_VAL = 0x123456;
-    }
-    let c = crc_any::CRCu32::crc24lte_a();
-    c.get_crc() == 0x123456
-}
+// ---- long frames with the CRC arithmetic stubbed (stubs live in util.rs) ---------------------------
 
 /// Shared by C03 (acceptance for every L) and C13 (nothing depends on the bytes after the frame).
 #[kani::proof]
